@@ -210,8 +210,10 @@ bool BIHTraverser::visit_edge(BIHInnerNode const& node,
     auto pos = node.bounding_planes[edge].position;
     auto point_pos = point[to_int(node.axis)];
 
-    return (edge == BIHInnerNode::Edge::left) ? (point_pos < pos)
-                                              : (pos < point_pos);
+    // Bounding boxes contain their faces, so a point exactly on the bounding
+    // plane can still be inside a volume on that side
+    return (edge == BIHInnerNode::Edge::left) ? (point_pos <= pos)
+                                              : (pos <= point_pos);
 }
 
 //---------------------------------------------------------------------------//
